@@ -69,6 +69,7 @@ type Tokenizer struct {
 	ParseTree      Statement
 	partialDDL     *DDL
 	nesting        int
+	prefixRun      int
 	multi          bool
 	specialComment *Tokenizer
 
@@ -504,6 +505,19 @@ func (tkn *Tokenizer) Lex(lval *yySymType) int {
 	}
 	lval.bytes = val
 	tkn.lastToken = val
+	// Prefix operators nest without parentheses (!!!!a, - - - a, not not a, binary binary a): every one of a run is a
+	// level of the parser's stack, like an opening parenthesis. A run longer than the nesting limit is refused the
+	// same way (the stack would otherwise grow by kilobytes per byte of such a statement).
+	switch typ {
+	case '!', '~', '-', '+', NOT, BINARY, UNDERSCORE_BINARY:
+		tkn.prefixRun++
+		if tkn.prefixRun == maxNesting {
+			tkn.Error("max nesting level reached")
+			return LEX_ERROR
+		}
+	default:
+		tkn.prefixRun = 0
+	}
 	return typ
 }
 
@@ -1038,6 +1052,9 @@ func (tkn *Tokenizer) next() {
 	}
 }
 
+// maxNesting is the depth of nesting (parentheses, runs of prefix operators) at which a statement is refused
+const maxNesting = 200
+
 // reset clears any internal state.
 func (tkn *Tokenizer) reset() {
 	tkn.ParseTree = nil
@@ -1045,6 +1062,7 @@ func (tkn *Tokenizer) reset() {
 	tkn.specialComment = nil
 	tkn.posVarIndex = 0
 	tkn.nesting = 0
+	tkn.prefixRun = 0
 	tkn.ForceEOF = false
 }
 
